@@ -38,5 +38,9 @@ let () =
       List.iter (fun x -> Printf.printf "%d\n" (int_of_n x))
         (list_backups_ss2_n (nat_of_int (int_of_string t.(4))) (n_of_int (int_of_string t.(1))) (n_of_int (int_of_string t.(2))) (n_of_int (int_of_string t.(3))) (n_of_int 1));
       print_endline "END"
+    | "BG" ->
+      (* BG <old groups> <new groups> <s_backup_bgs[1]>  -> s_backup_bgs[1] after resize2fs has grown the file system *)
+      Printf.printf "%d\n" (int_of_n (grow_b1_new (n_of_int (int_of_string t.(1))) (n_of_int (int_of_string t.(2))) (n_of_int (int_of_string t.(3)))));
+      print_endline "END"
     | _ -> ()
   done with End_of_file -> ()
